@@ -60,7 +60,7 @@ KEYABLE = ["bool", "byte", "i16", "i32", "i64", "string"]
 
 class Ty:
     """k in BASE codes or E S T (named: file, name) or L Z M."""
-    def __init__(self, k, a=None, b=None, file=None, name=None): self.k, self.a, self.b, self.file, self.name = k, a, b, file, name
+    def __init__(self, k, a=None, b=None, file=None, name=None, alias=None): self.k, self.a, self.b, self.file, self.name, self.alias = k, a, b, file, name, alias
     def code(self):
         if self.k in "EST": return "%s%s/%s." % (self.k, self.file, self.name)
         if self.k in "LZ": return self.k + self.a.code()
@@ -71,7 +71,7 @@ class Ty:
         if self.k == "L": return "list<%s>" % self.a.idl(cur)
         if self.k == "Z": return "set<%s>" % self.a.idl(cur)
         if self.k == "M": return "map<%s,%s>" % (self.a.idl(cur), self.b.idl(cur))
-        return {v: k for k, v in BASE.items()}[self.k]
+        return self.alias or {v: k for k, v in BASE.items()}[self.k]
 
 class Prog:
     def __init__(self, pid):
@@ -85,6 +85,7 @@ class Prog:
         self.services = {}              # (file,name) -> {"extends": (file,name)|None, "methods": [method]}
                                         #   method = {"name", "oneway", "args": [(id, fname, Ty)], "ret": Ty|None, "throws": [(id, fname, Ty)]}
         self.scopes = {}                # (file,name) -> {"prefix": [("lit", s)|("var", name)], "ops": [(opname, Ty)]}
+        self.genopts = ""               # extra `-gen go:` options for this program (e.g. "slim")
 
     def resolve(self, t):
         n = 0
@@ -189,7 +190,8 @@ def gen_prog(r, pid, services=False, scopes=False):
         def gen_ty(depth, allow_named="EST"):
             c = r.intn(10)
             if depth <= 0 or c < 4:
-                return Ty(r.pick(list(BASE.values())))
+                k = r.pick(list(BASE.values()))
+                return Ty(k, alias="i8" if (k == "y" and r.chance(40)) else None)   # `i8` is Thrift's other spelling of `byte`
             if c < 6:
                 pool = named_pool(allow_named)
                 if pool: return r.pick(pool)
@@ -482,7 +484,7 @@ def build_and_run(progs, jobs):
             idl = os.path.join(scratch, "idl", "p%d" % p.pid)
             os.makedirs(idl)
             for f in p.files: open(os.path.join(idl, f + ".frugal"), "w").write(p.text(f))
-            rc, out, err = sh([frugal, "-gen", "go:package_prefix=%s/gen/" % MOD, "-r", "-out", os.path.join(mod, "gen"), p.files[-1] + ".frugal"], cwd=idl)
+            rc, out, err = sh([frugal, "-gen", "go:package_prefix=%s/gen/%s" % (MOD, ("," + p.genopts) if p.genopts else ""), "-r", "-out", os.path.join(mod, "gen"), p.files[-1] + ".frugal"], cwd=idl)
             if rc != 0:
                 return None, "frugal failed on program %d: %s\n%s" % (p.pid, (out + err)[-1500:], "\n".join(p.text(f) for f in p.files))
             for (f, n) in p.structs:
